@@ -8,6 +8,7 @@ import (
 	"database/sql"
 	"encoding/json"
 	"fmt"
+	"io"
 	"math/rand"
 	"sort"
 	"strings"
@@ -16,6 +17,7 @@ import (
 	"time"
 
 	"github.com/benbjohnson/litestream"
+	"github.com/superfly/ltx"
 
 	"verif/harness/internal/hist"
 	"verif/harness/internal/oracle"
@@ -326,6 +328,12 @@ func runB(s spec, dir string, res *vf.Result) *vf.Result {
 		db.Replica.MonitorEnabled = true
 		db.Replica.SyncInterval = rmon
 	}
+	if s.Seed%3 != 0 {
+		e.Wrap = func(c litestream.ReplicaClient) litestream.ReplicaClient {
+			return &slowSnapshots{ReplicaClient: c, perChunk: time.Duration(1+rng.Intn(3)) * time.Millisecond}
+		}
+		res.Count("runs_with_slow_snapshot_uploads", 1)
+	}
 	// the writer uses its own connection with a longer busy timeout
 	e.W.Close()
 	w, err := sq.Open(e.DBPath, 2000, 4, 1)
@@ -496,6 +504,39 @@ func runB(s spec, dir string, res *vf.Result) *vf.Result {
 	res.Nontrivial = commits.Load() >= 20 && distinctK >= 3
 	res.Sample = map[string]any{"kind": s.Kind, "cfg": s.Cfg.String(), "monitor_ms": mon.Milliseconds(), "commits": commits.Load(), "rollbacks": rollbacks.Load(), "maintenance_ops": maint.Load(), "distinct_k": distinctK}
 	return res
+}
+
+// slowSnapshots is a ReplicaClient wrapper that consumes the stream of level-9
+// (snapshot) uploads slowly, as a remote store would: the snapshot reader stays
+// open -- and litestream's checkpoint lock stays held -- while the application
+// keeps committing and the monitor keeps syncing and trying to checkpoint.
+type slowSnapshots struct {
+	litestream.ReplicaClient
+	perChunk time.Duration
+}
+
+type slowReader struct {
+	r     io.Reader
+	d     time.Duration
+	spent time.Duration
+}
+
+func (s *slowReader) Read(p []byte) (int, error) {
+	if len(p) > 4096 {
+		p = p[:4096]
+	}
+	if s.spent < 300*time.Millisecond {
+		time.Sleep(s.d)
+		s.spent += s.d
+	}
+	return s.r.Read(p)
+}
+
+func (c *slowSnapshots) WriteLTXFile(ctx context.Context, level int, minTXID, maxTXID ltx.TXID, r io.Reader) (*ltx.FileInfo, error) {
+	if level == litestream.SnapshotLevel {
+		r = &slowReader{r: r, d: c.perChunk}
+	}
+	return c.ReplicaClient.WriteLTXFile(ctx, level, minTXID, maxTXID, r)
 }
 
 type txq struct{ tx *sql.Tx }
